@@ -160,7 +160,8 @@ def png_predict(data, cols, types, bpp=1):
 class Revision:
     def __init__(self, objects, form="table", objstm=(), free=(), eol=b"\n", root=None, info=None,
                  trailer_extra=None, gens=None, xref_w=(1, 4, 2), split_index=False, objstm_id=None, xref_id=None,
-                 pad_before=b"", omit_index=False, trailer_style=0, xref_pack="flate", objstm_pack="flate"):
+                 pad_before=b"", omit_index=False, trailer_style=0, xref_pack="flate", objstm_pack="flate",
+                 hybrid_free=False):
         self.objects = dict(objects)          # objid -> value
         self.form = form                      # 'table' | 'stream' | 'hybrid'
         self.objstm = list(objstm)            # objids stored in this revision's object stream (not for 'table')
@@ -178,6 +179,8 @@ class Revision:
         self.trailer_style = trailer_style    # table: 0 `trailer` EOL dict; 1 `trailer <<...>>` on one line; 2 `trailer <<` EOL entries EOL `>>`
         self.xref_pack = xref_pack            # xref stream payload: 'flate' | 'png' (Flate + /Predictor 12, as most writers do) | 'none'
         self.objstm_pack = objstm_pack        # object stream payload: 'flate' | 'none' | 'hex' (ASCIIHex)
+        self.hybrid_free = hybrid_free        # hybrid: the classic table lists the objects kept in object streams as FREE entries
+                                              # (ISO 32000-1 7.5.8.4: hidden from readers that do not know XRefStm)
         self.omit_index = omit_index          # xref stream: leave /Index out when it equals the default [0 Size]
 
 
@@ -318,6 +321,10 @@ def build(revisions, header=b"%PDF-1.7\n%\xe2\xe3\xcf\xd3\n", transform_for=None
                 info["xref_ids"].append(None)
             xpos = len(out)
             tab = {k: v for k, v in entries.items() if v[0] != 2}
+            if rev.form == "hybrid" and rev.hybrid_free:
+                for k, v in entries.items():
+                    if v[0] == 2:
+                        tab[k] = (0, 0, 0)
             if rev.form == "hybrid" and xstm_pos is not None:
                 tab[info["xref_ids"][-1]] = (1, xstm_pos, 0)
             if prev is None:
